@@ -156,6 +156,29 @@ class Violation:
         return 'Violation(%s: %s)' % (self.kind, self.msg)
 
 
+class LazyArms:
+    """conditions of the arms of a switchInt, built when an arm is taken (the default arm is the conjunction of all disequalities)"""
+    def __init__(self, t, bits, keys):
+        self.t = t; self.bits = bits; self.keys = keys; self.c = {}
+
+    def __len__(self):
+        return len(self.keys)
+
+    def __getitem__(self, i):
+        c = self.c.get(i)
+        if c is None:
+            k = self.keys[i]
+            if k is None:
+                c = z3.And([self.t != z3.BitVecVal(x, self.bits) for x in self.keys if x is not None])
+            else:
+                c = self.t == z3.BitVecVal(k, self.bits)
+            self.c[i] = c
+        return c
+
+
+_REF_FWD = re.compile(r'<&(.+) as (PartialEq(?:<.*>)?|PartialOrd(?:<.*>)?|Ord|Eq)>::(eq|ne|lt|le|gt|ge|cmp|partial_cmp)$')
+
+
 class Engine:
     def __init__(self, prog, solver_timeout_ms=10000):
         self.prog = prog
@@ -184,6 +207,8 @@ class Engine:
         self._result_fd = None
         self.deadline = None
         self._memo = {}
+        self._switch_cache = {}
+        self.call_memo = None
         self._capture = None
         self._pure_cache = {}
         self.path_memo = {}
@@ -267,13 +292,48 @@ class Engine:
             raise PathEnd()
 
     # ------------------------------------------------------------------ branching
-    def branch(self, conds):
+    def _enum_arms(self, t, keys):
+        """feasible arms of a many-armed switch on term t by model enumeration: one query per feasible arm (+1) instead of one per arm"""
+        idx = {}
+        default = None
+        for i, k in enumerate(keys):
+            if k is None:
+                default = i
+            else:
+                idx.setdefault(k, i)
+        feas = set()
+        self.solver.push()
+        try:
+            while True:
+                self.stats.feas_checks += 1
+                if self._check() != z3.sat:
+                    break
+                val = self.solver.model().eval(t, model_completion=True).as_long()
+                i = idx.get(val, default)
+                if i is None:
+                    self.solver.add(t != val); continue
+                feas.add(i)
+                if i == default:
+                    if not idx:
+                        break
+                    ck = ('anykey', t.get_id(), len(keys))
+                    ent = self._switch_cache.get(ck)
+                    if ent is None:
+                        ent = self._switch_cache[ck] = (t, z3.Or([t == z3.BitVecVal(k, t.size()) for k in idx]))
+                    self.solver.add(ent[1])
+                else:
+                    self.solver.add(t != val)
+        finally:
+            self.solver.pop()
+        return sorted(feas)
+
+    def branch(self, conds, switch=None):
         """conds: z3 Bools, mutually exclusive and exhaustive on the current path. -> chosen index"""
         if self.pos < len(self.decisions):
             k = self.decisions[self.pos]; self.pos += 1
             self.add(conds[k]); return k
         feas = []
-        for k, c in enumerate(conds):
+        for k, c in (enumerate(conds) if switch is None or len(conds) <= 8 else ()):
             if isinstance(c, bool):
                 if c:
                     feas = [k]; break
@@ -286,6 +346,8 @@ class Engine:
             self.stats.feas_checks += 1
             if self._check(c) == z3.sat:
                 feas.append(k)
+        if switch is not None and len(conds) > 8:
+            feas = self._enum_arms(*switch)
         if not feas:
             self.stats.infeasible += 1
             raise PathEnd()
@@ -575,12 +637,22 @@ class Engine:
         sub = self.frame_subst[-1]
         if sub:
             callee = apply_subst(callee, sub)
+        if callee.startswith('<&') and args and isinstance(args[0], Ref) and isinstance(args[0].c.v, Ref):
+            # `impl PartialEq<&B> for &A` etc. (std forwarding impls for references): one reference layer is peeled off the operands
+            m = _REF_FWD.match(callee)
+            if m and m.group(1)[0] not in '[(' and not m.group(1).startswith(('str', 'mut ')):
+                return self.call('<%s as %s>::%s' % (m.group(1), re.sub(r'<&', '<', m.group(2), 1) if m.group(2).startswith(('PartialEq<&', 'PartialOrd<&')) else m.group(2), m.group(3)),
+                                 [a.c.v if isinstance(a, Ref) and isinstance(a.c.v, Ref) else a for a in args])
         ent = self._resolve_cache.get(callee)
         if ent is None:
             ent = self._resolve(callee)
             self._resolve_cache[callee] = ent
         kind, tgt = ent
         if kind == 'fn':
+            cm = self.call_memo
+            if cm and callee in cm:
+                # harness-declared deterministic call (concrete arguments, result not mutated afterwards): computed once per worker
+                return self.memo(('call', callee, cm[callee]), lambda: self.run(tgt, args, callee))
             return self.run(tgt, args, callee)
         if kind == 'model':
             self.stats.stubs[tgt.__mname__] = self.stats.stubs.get(tgt.__mname__, 0) + 1
@@ -646,6 +718,8 @@ class Engine:
 
     def call_dynamic(self, callee, pc, args):
         import models
+        if args and isinstance(args[0], Opaque) and args[0].kind == 'box' and getattr(args[0], 'cell', None) is not None:
+            args = [Ref(args[0].cell)] + list(args[1:])        # &*Box<dyn Trait>: dispatch on the boxed value
         rt = models.rt_type(args[0]) if args else None
         cands = self.prog.by_key.get((rt, pc['trait'], pc['method']))
         if cands:
@@ -782,13 +856,24 @@ class Engine:
                 r = self.try_merge(f, loc, term, v, None)
                 if r is not None:
                     return r
-            conds = []; dsts = []; neg = []
+            mask = (1 << v.bits) - 1
+            if len(arms) > 8:
+                # many-armed match (e.g. a character table): arm conditions are built on demand and kept per switched term
+                ck = (t.get_id(), f.name, id(term))
+                ent = self._switch_cache.get(ck)
+                if ent is None:
+                    ent = self._switch_cache[ck] = (t, LazyArms(t, v.bits, [None if key is None else key & mask for key, _ in arms]))
+                    if len(self._switch_cache) > 4096:
+                        self._switch_cache.clear()
+                la = ent[1]
+                return arms[self.branch(la, (t, la.keys))][1]
+            conds = []; dsts = []; neg = []; keys = []
             for key, dst in arms:
                 if key is None:
-                    conds.append(z3.And([z3.Not(x) for x in neg]) if neg else True); dsts.append(dst)
+                    conds.append(z3.And([z3.Not(x) for x in neg]) if neg else True); dsts.append(dst); keys.append(None)
                 else:
-                    c1 = t == z3.BitVecVal(key, v.bits); neg.append(c1); conds.append(c1); dsts.append(dst)
-            return dsts[self.branch(conds)]
+                    c1 = t == z3.BitVecVal(key, v.bits); neg.append(c1); conds.append(c1); dsts.append(dst); keys.append(key & mask)
+            return dsts[self.branch(conds, (t, keys))]
         if is_bool(v):
             if not isinstance(v, bool) and len(arms) == 2:
                 r = self.try_merge(f, loc, term, None, v)
@@ -988,6 +1073,8 @@ class Engine:
             return base.e
         if isinstance(base, Ref) and isinstance(base.c.v, Seq):
             return base.c.v.e
+        if isinstance(base, Opaque) and base.kind == 'strbytes':
+            return [Cell(b) for b in base.s.b[base.lo:base.hi]]       # str::as_bytes(): read-only view
         raise Unsupported('indexing into %r' % (base,))
 
     # ---- operands
@@ -1156,6 +1243,8 @@ class Engine:
                     return Int(a.hi - a.lo, 64)
                 if isinstance(a, Ref) and isinstance(a.c.v, Seq):
                     return Int(len(a.c.v.e), 64)
+                if isinstance(a, Opaque) and a.kind == 'strbytes':
+                    return Int(a.hi - a.lo, 64)
             raise Unsupported('unop %s on %r' % (op, a))
         if k == 'cast':
             return self.cast(self.operand(f, loc, rv[1]), rv[2], rv[3], rv[4], f)
